@@ -77,14 +77,21 @@ func safeEqual(a, b ugo.Object) (eq bool, panicked bool) {
 	return a.Equal(b), false
 }
 
+var unToks = []struct {
+	name string
+	tok  token.Token
+	src  string
+}{{"Add", token.Add, "+"}, {"Sub", token.Sub, "-"}, {"Xor", token.Xor, "^"}, {"Not", token.Not, "!"}}
+
 type vmOps struct {
+	un  map[string]*ugo.Bytecode
 	bin map[string]*ugo.Bytecode
 	eq  *ugo.Bytecode
 	ne  *ugo.Bytecode
 }
 
 func newVMOps() *vmOps {
-	v := &vmOps{bin: map[string]*ugo.Bytecode{}}
+	v := &vmOps{bin: map[string]*ugo.Bytecode{}, un: map[string]*ugo.Bytecode{}}
 	opts := ugo.CompilerOptions{NoOptimize: true}
 	mk := func(op string) *ugo.Bytecode {
 		bc, err := ugo.Compile([]byte("param (a, b); return a "+op+" b"), opts)
@@ -95,6 +102,13 @@ func newVMOps() *vmOps {
 	}
 	for _, t := range binToks {
 		v.bin[t.name] = mk(t.src)
+	}
+	for _, u := range unToks {
+		bc, err := ugo.Compile([]byte("param (a, b); return "+u.src+"a"), opts)
+		if err != nil {
+			panic(err)
+		}
+		v.un[u.name] = bc
 	}
 	v.eq = mk("==")
 	v.ne = mk("!=")
@@ -126,7 +140,11 @@ func opsImpl(tok token.Token, a, b ugo.Object, ids *codec.Ids) string {
 		}
 		return 0
 	}
-	return fmt.Sprintf("eq=%d ne=%d bin=%s", bi(eq), bi(!eq), safeBinop(a, tok, b, ids))
+	doc := "-"
+	if d, ok := docArith(a, tok, b); ok {
+		doc = d
+	}
+	return fmt.Sprintf("eq=%d ne=%d bin=%s doc=%s", bi(eq), bi(!eq), safeBinop(a, tok, b, ids), doc)
 }
 
 func isNaNVal(o ugo.Object) bool {
@@ -135,6 +153,14 @@ func isNaNVal(o ugo.Object) bool {
 }
 
 func kindOf(o ugo.Object) string { return o.TypeName() }
+
+func isNumericKind(o ugo.Object) bool {
+	switch o.(type) {
+	case ugo.Int, ugo.Uint, ugo.Float, ugo.Char, ugo.Bool:
+		return true
+	}
+	return false
+}
 
 // cmpImpl returns the boolean result of a relational operator, if defined.
 func cmpImpl(a ugo.Object, tok token.Token, b ugo.Object) (r bool, ok bool) {
@@ -180,6 +206,35 @@ func opsOracle(c *Ctx, vm *vmOps, a, b ugo.Object) {
 		viaVM := vm.run(vm.bin[t.name], a, b, nil)
 		if viaVM != direct && !(strings.HasPrefix(direct, "err InvalidOperatorError") && strings.HasPrefix(viaVM, "err InvalidOperatorError")) {
 			c.Violation(PropViolation{"C15", "VM " + t.src + " gives " + viaVM + " but BinaryOp gives " + direct, in(), "C15:vm-binop:" + t.name})
+		}
+	}
+	// documented numeric semantics (docs/operators.md, opsdoc.go): value after the documented operand
+	// conversion, ZeroDivisionError / TypeError where the document has no result
+	for _, t := range binToks[:11] {
+		want, ok := docArith(a, t.tok, b)
+		if !ok {
+			continue
+		}
+		if got := docClass(safeBinop(a, t.tok, b, nil)); got != want {
+			c.Violation(PropViolation{"C15", "a " + t.src + " b gives " + got + " but docs/operators.md (Go operation after the documented conversion) gives " + want, in(),
+				"C15:doc:" + t.name + ":" + kindOf(a) + "," + kindOf(b)})
+		}
+	}
+	// documented operand types (docs/operators.md): an arithmetic, bitwise or shift operator with a
+	// numeric left operand and a right operand that is not int/uint/float/char/bool is unsupported
+	// and must raise TypeError (char + string is the documented exception)
+	if isNumericKind(a) && !isNumericKind(b) {
+		for _, t := range binToks[:11] {
+			if _, isChar := a.(ugo.Char); isChar && t.tok == token.Add {
+				if _, isStr := b.(ugo.String); isStr {
+					continue
+				}
+			}
+			got := safeBinop(a, t.tok, b, nil)
+			if !strings.HasPrefix(got, "err TypeError") {
+				c.Violation(PropViolation{"C15", "unsupported operand types for " + t.src + " give " + got + " instead of TypeError", in(),
+					"C15:unsupported-not-typeerror:" + t.name + ":" + kindOf(a) + "," + kindOf(b)})
+			}
 		}
 	}
 	lt, okLt := cmpImpl(a, token.Less, b)
@@ -235,6 +290,41 @@ func init() {
 				}
 				pairs = append(pairs, [2]ugo.Object{a, b})
 			}
+			// wrapper types: RuntimeError wraps an Error, SyncMap guards a Map — oracle only
+			// (the model treats them as the wrapped value)
+			e1 := &ugo.Error{Name: "E1"}
+			wrappers := []ugo.Object{e1, &ugo.RuntimeError{Err: e1}, &ugo.RuntimeError{Err: e1}, &ugo.Error{Name: "E1"},
+				&ugo.SyncMap{Value: ugo.Map{"a": ugo.Int(1)}}, &ugo.SyncMap{Value: ugo.Map{}}, ugo.Map{"a": ugo.Int(1)}, ugo.Map{},
+				ugo.Array{&ugo.RuntimeError{Err: e1}}, ugo.Array{e1}, ugo.Undefined, ugo.Int(1)}
+			for _, a := range wrappers {
+				for _, b := range wrappers {
+					opsOracle(c, vm, a, b)
+				}
+			}
+			for _, a := range pool {
+				for _, u := range unToks {
+					got := vm.run(vm.un[u.name], a, ugo.Undefined, nil)
+					if want, ok := docUnary(u.tok, a); ok && docClass(got) != want {
+						c.Violation(PropViolation{"C15", "unary " + u.src + "a gives " + got + " but docs/operators.md gives " + want, codec.Encode(a, nil),
+							"C15:doc-unary:" + u.name + ":" + kindOf(a)})
+					}
+					if strings.HasPrefix(got, "panic") {
+						c.Violation(PropViolation{"C15", "unary " + u.src + " panics: " + got, codec.Encode(a, nil), "C15:unary-panic:" + u.name + ":" + kindOf(a)})
+					}
+					ids := codec.NewIds()
+					falsy := "0"
+					if a.IsFalsy() {
+						falsy = "1"
+					}
+					line := fmt.Sprintf("unop\t%s\t%s\t%s", u.name, codec.Encode(a, ids), falsy)
+					doc := "-"
+					if d, ok := docUnary(u.tok, a); ok {
+						doc = d
+					}
+					c.Count("un:" + strings.SplitN(got+" ", " ", 2)[0])
+					c.Add(Case{Line: line, Impl: "un=" + vm.run(vm.un[u.name], a, ugo.Undefined, ids) + " doc=" + doc, Key: "un/" + u.name + "/" + kindOf(a)})
+				}
+			}
 			for _, p := range pairs {
 				a, b := p[0], p[1]
 				opsOracle(c, vm, a, b)
@@ -260,6 +350,23 @@ func init() {
 		},
 		Replay: func(line string) (string, error) {
 			f := strings.Split(line, "\t")
+			if len(f) == 4 && f[0] == "unop" {
+				a, err := codec.Decode(f[2], func(tn string, id int) ugo.Object { return ugo.Undefined })
+				if err != nil {
+					return "", err
+				}
+				vm := newVMOps()
+				for _, u := range unToks {
+					if u.name == f[1] {
+						doc := "-"
+						if d, ok := docUnary(u.tok, a); ok {
+							doc = d
+						}
+						return "un=" + vm.run(vm.un[u.name], a, ugo.Undefined, codec.NewIds()) + " doc=" + doc, nil
+					}
+				}
+				return "", fmt.Errorf("unknown unary operator %s", f[1])
+			}
 			if len(f) != 5 {
 				return "", fmt.Errorf("bad ops line")
 			}
